@@ -535,8 +535,8 @@ def aval(v):
 
 
 def same(a, b):
-    if isinstance(b, tuple):          # opaque object: identity
-        return a is b[0]
+    if isinstance(b, tuple):          # opaque object: identity (plain flags / strings: equality)
+        return a is b[0] or (isinstance(b[0], (bool, str)) and type(a) is type(b[0]) and a == b[0])
     return type(a) is type(b) and a == b
 
 
@@ -590,32 +590,115 @@ def field_observations(gp, req, kwargs):
     return out
 
 
-def observe_api(timeout, n_jobs, kwargs):
-    """kwargs: list of (key, value); opaque objects are (object, id) pairs"""
+def observe_api(timeout, n_jobs, kwargs, calls=1):
+    """kwargs: list of (key, value); opaque objects are (object, id) pairs.  optimise() is called `calls` times on the
+    ONE facade object; the returned record describes the last call, rec['per_call'] every call"""
     from golem.api.main import GOLEM
     plain = {k: (v[0] if isinstance(v, tuple) else v) for k, v in kwargs}
-    rec = {'timeout': str(timeout), 'n_jobs': n_jobs, 'kwargs': [k for k, _ in kwargs]}
+    rec = {'timeout': str(timeout), 'n_jobs': n_jobs, 'kwargs': [k for k, _ in kwargs], 'calls': calls}
     try:
         g = GOLEM(timeout=timeout, n_jobs=n_jobs, logging_level=50, **plain)
     except Exception as ex:  # noqa
         rec['raised'] = type(ex).__name__
+        rec['per_call'] = [rec]
         return rec
-    RecorderOptimizer.last = None
-    g.optimise()
-    req, gen, gp = RecorderOptimizer.last
-    objs = (gp, gen, req)
-    where = []
-    for k, v in kwargs:
-        where.append((k, tuple(bool(hasattr(o, k) and same(getattr(o, k), v)) for o in objs)))
-    rec['raised'] = None
-    rec['where'] = where
-    rec['req_timeout'] = getattr(req, 'timeout', 'missing')
-    rec['req_n_jobs'] = getattr(req, 'n_jobs', None)
-    rec['n_jobs_elsewhere'] = bool(hasattr(gp, 'n_jobs') or hasattr(gen, 'n_jobs'))
-    rec['dynamic'] = type(req).__name__ == 'DynamicGraphRequirements'
-    rec['fields'] = field_observations(gp, req, kwargs)
-    rec['same_objects'] = (req is g.graph_requirements and gen is g.graph_generation_parameters and gp is g.gp_algorithm_parameters)
+    per_call = []
+    for call in range(calls):
+        RecorderOptimizer.last = None
+        g.optimise()
+        req, gen, gp = RecorderOptimizer.last
+        objs = (gp, gen, req)
+        one = dict(rec, call=call + 1)
+        one['raised'] = None
+        one['where'] = [(k, tuple(bool(hasattr(o, k) and same(getattr(o, k), v)) for o in objs)) for k, v in kwargs]
+        one['req_timeout'] = getattr(req, 'timeout', 'missing')
+        one['req_n_jobs'] = getattr(req, 'n_jobs', None)
+        one['n_jobs_elsewhere'] = bool(hasattr(gp, 'n_jobs') or hasattr(gen, 'n_jobs'))
+        one['dynamic'] = type(req).__name__ == 'DynamicGraphRequirements'
+        one['fields'] = field_observations(gp, req, kwargs)
+        one['same_objects'] = (req is g.graph_requirements and gen is g.graph_generation_parameters and gp is g.gp_algorithm_parameters)
+        per_call.append(one)
+    rec = dict(per_call[-1])
+    rec['per_call'] = per_call
     return rec
+
+
+# fields that a real genetic optimiser adapts in place on the shared parameter objects during a run
+# (static_individual_metadata: the one dictionary is shared with the individuals, evaluation writes timings into it)
+ADAPTED_IN_PLACE = ('pop_size', 'max_depth', 'mutation_prob', 'crossover_prob', 'static_individual_metadata')
+
+
+class RecordingEvo(optrun.EvoGraphOptimizer):
+    """passed as `optimizer=` for REAL repeated runs through the facade: notes what it is handed, then runs"""
+    entries = []
+
+    def __init__(self, objective, initial_graphs, requirements, graph_generation_params, graph_optimizer_params, **kw):
+        RecordingEvo.entries.append((requirements, graph_generation_params, graph_optimizer_params,
+                                     {'pop_size': graph_optimizer_params.pop_size, 'max_pop_size': graph_optimizer_params.max_pop_size,
+                                      'max_depth': requirements.max_depth, 'start_depth': requirements.start_depth}))
+        super().__init__(objective, initial_graphs, requirements, graph_generation_params, graph_optimizer_params, **kw)
+
+
+def _repeat_metric(graph):
+    return float(abs(len(graph.nodes) - 6))
+
+
+def observe_repeat_real(timeout, n_jobs, limits, calls):
+    """a REAL small evolutionary run, optimise() called `calls` times on one facade object"""
+    from golem.api.main import GOLEM
+    from golem.core.adapter.adapter import IdentityAdapter
+    from golem.core.optimisers.objective import Objective
+    from golem.core.optimisers.opt_node_factory import DefaultOptNodeFactory
+    extra = [('optimizer', (RecordingEvo, 9101)), ('objective', (Objective({'m': _repeat_metric}), 9102)),
+             ('initial_graphs', ([optrun.build_graph(sp) for sp in optrun.INITIAL_GRAPHS['three']], 9103)),
+             ('adapter', (IdentityAdapter(), 9104)), ('node_factory', (DefaultOptNodeFactory(optrun.NODE_TYPES), 9105)),
+             ('history_dir', None), ('show_progress', (False, 9106)), ('parallelization_mode', ('single', 9107))]
+    kwargs = list(limits.items()) + extra
+    plain = {k: (v[0] if isinstance(v, tuple) else v) for k, v in kwargs}
+    g = GOLEM(timeout=timeout, n_jobs=n_jobs, seed=1, logging_level=50, **plain)
+    out = []
+    for call in range(calls):
+        RecordingEvo.entries.clear()
+        one = {'timeout': str(timeout), 'n_jobs': n_jobs, 'kwargs': [k for k, _ in kwargs], 'call': call + 1, 'calls': calls,
+               'limits': limits, 'real': True}
+        old_handler = signal.signal(signal.SIGALRM, _on_alarm)
+        signal.setitimer(signal.ITIMER_REAL, 100.0)
+        try:
+            g.optimise()
+            one['outcome'] = 'ok'
+        except RunTimeout:
+            one['outcome'] = 'timeout'
+        except Exception as ex:  # noqa
+            one['outcome'] = 'raise:' + type(ex).__name__
+        finally:
+            signal.setitimer(signal.ITIMER_REAL, 0)
+            signal.signal(signal.SIGALRM, old_handler)
+        req, gen, gp, entry = RecordingEvo.entries[-1]
+        one['entry'] = entry
+        one['raised'] = None
+        objs = (gp, gen, req)
+        skip = [k for k in ADAPTED_IN_PLACE]
+        one['where'] = [(k, tuple(bool(hasattr(o, k) and same(getattr(o, k), v)) for o in objs))
+                        for k, v in kwargs if k not in skip]
+        one['req_timeout'] = getattr(req, 'timeout', 'missing')
+        one['req_n_jobs'] = getattr(req, 'n_jobs', None)
+        one['n_jobs_elsewhere'] = bool(hasattr(gp, 'n_jobs') or hasattr(gen, 'n_jobs'))
+        one['dynamic'] = type(req).__name__ == 'DynamicGraphRequirements'
+        one['fields'] = [f for f in field_observations(gp, req, kwargs) if f[0] not in skip]
+        one['same_objects'] = True
+        opt = getattr(g, 'optimiser', None)
+        hist = opt.history.generations if opt is not None else []
+        one['sizes'] = [len(gn) for gn in hist if not gn.label]
+        one['all_sizes'] = [(gn.label or '', len(gn)) for gn in hist]
+        out.append((one, [kv for kv in kwargs if kv[0] not in skip]))
+    return out
+
+
+def call_case(one):
+    lim = one['limits']
+    return ('{| c_maxpop := %s; c_nog := %s; c_popsize_given := %s; c_popsize_entry := %s; c_maxpop_entry := %s; c_sizes := %s |}' % (
+        oz(lim.get('max_pop_size', 55)), on(lim.get('num_of_generations')), c_Z(lim.get('pop_size', 20)),
+        c_Z(int(one['entry']['pop_size'])), oz(one['entry']['max_pop_size']), c_list([c_nat(n) for n in one['sizes']], 'nat')))
 
 
 def api_case(cpu, timeout, n_jobs, kwargs, rec):
@@ -676,22 +759,28 @@ def unit_api(ctx):
             kwargs.append(('adapter', (IdentityAdapter(), len(plan))))
         plan.append((rng.choice(timeouts), rng.choice(jobs), kwargs))
     earlier = []
-    for timeout, n_jobs, kwargs in plan:
+    for idx, (timeout, n_jobs, kwargs) in enumerate(plan):
         jkw = {k: v for k, v in kwargs if not isinstance(v, tuple)}
         kwargs = kwargs + common_kwargs()
-        rec = observe_api(timeout, n_jobs, kwargs)
-        cases.append(api_case(cpu, timeout, n_jobs, kwargs, rec))
-        jrec = dict(rec, req_timeout=str(rec.get('req_timeout')), cpu_count=cpu,
-                    sequence=earlier[-2:] + [{'timeout': timeout if not isinstance(timeout, datetime.timedelta) else 0.5,
-                                              'n_jobs': n_jobs, 'kwargs': jkw}],
-                    fields=[f for f in rec.get('fields', []) if f[3] != ('FGiven' if f[2] else 'FDefault')])
-        earlier.append(jrec['sequence'][-1])
-        meta.append(jrec)
-        ctx.count('api', key=(str(timeout), n_jobs, tuple(k for k, _ in kwargs)), nontrivial=len(kwargs) >= 4,
-                  timeout=type(timeout).__name__, raised=str(rec['raised']), keys=min(len(kwargs), 9),
-                  n_jobs=('cpu+5' if n_jobs > cpu else 'cpu' if n_jobs == cpu else '-cpu-1' if n_jobs < -cpu else str(n_jobs)))
-        if rec['raised'] is None and not rec['same_objects']:
-            ctx.violate('api', jrec, 'the parameter objects handed to the optimiser are not the ones the facade built')
+        # every third facade object is used for three optimise() calls: each call must hand over the facade's limits
+        calls = 3 if idx % 3 == 0 else 1
+        full = observe_api(timeout, n_jobs, kwargs, calls=calls)
+        for rec in full['per_call']:
+            cases.append(api_case(cpu, timeout, n_jobs, kwargs, rec))
+            step = {'timeout': timeout if not isinstance(timeout, datetime.timedelta) else 0.5, 'n_jobs': n_jobs, 'kwargs': jkw,
+                    'calls': rec.get('call', 1)}
+            jrec = dict(rec, req_timeout=str(rec.get('req_timeout')), cpu_count=cpu, sequence=earlier[-2:] + [step],
+                        fields=[f for f in rec.get('fields', []) if f[3] != ('FGiven' if f[2] else 'FDefault')])
+            jrec.pop('per_call', None)
+            meta.append(jrec)
+            ctx.count('api', key=(str(timeout), n_jobs, tuple(k for k, _ in kwargs), rec.get('call', 1)), nontrivial=len(kwargs) >= 4,
+                      timeout=type(timeout).__name__, raised=str(rec['raised']), keys=min(len(kwargs), 9), call=rec.get('call', 1),
+                      n_jobs=('cpu+5' if n_jobs > cpu else 'cpu' if n_jobs == cpu else '-cpu-1' if n_jobs < -cpu else str(n_jobs)))
+            if rec['raised'] is None and not rec['same_objects']:
+                ctx.violate('api', jrec, 'the parameter objects handed to the optimiser are not the ones the facade built')
+        earlier.append({k: v for k, v in step.items() if k != 'calls'})
+    # REAL small runs repeated on one facade object
+    real_repeat(ctx, 'api', cpu, 1, 1, REPEAT_LIMITS[:ctx.pick(3, len(REPEAT_LIMITS))], 3)
     # canary: claim that the worker count arrived as 1 although 2 was given
     ckw = [('pop_size', 6)] + common_kwargs()
     rec = observe_api(2, 2, ckw)
@@ -724,6 +813,49 @@ def judge_api(ctx, group, rec, flags):
         ctx.violate(group, rec, 'the worker count given to the facade does not arrive in the requirements handed to the optimiser')
 
 
+REPEAT_LIMITS = [
+    {'pop_size': 3, 'max_pop_size': 4, 'num_of_generations': 2, 'early_stopping_iterations': 10, 'max_depth': 5},
+    # no step at all: on the tree as it is the first call leaves requirements.max_depth at start_depth (noted, not judged)
+    {'pop_size': 3, 'max_pop_size': 4, 'num_of_generations': 0, 'max_depth': 5, 'start_depth': 2},
+    {'pop_size': 2, 'max_pop_size': 3, 'num_of_generations': 3, 'max_depth': 4, 'start_depth': 2, 'keep_n_best': 2},
+    {'pop_size': 3, 'max_pop_size': 6, 'num_of_generations': 2, 'early_stopping_iterations': 1},
+    {'pop_size': 4, 'max_pop_size': 4, 'num_of_generations': 1, 'early_stopping_timeout': 1.5},
+]
+
+
+def real_repeat(ctx, group, cpu, timeout, n_jobs, limits_list, calls):
+    """optimise() called several times on one facade object with a REAL genetic optimiser: every call must be handed
+    the facade's limits (fields adapted in place by earlier runs excepted) and keep every step within them"""
+    observed = []
+    for limits in limits_list:
+        observed += observe_repeat_real(timeout, n_jobs, limits, calls)
+    acases = [api_case(cpu, timeout, n_jobs, kw, one) for one, kw in observed]
+    ares = ctx.coq_cases(group, REQ, 'acheck', acases, 6)
+    cres = ctx.coq_cases(group, REQ, 'ccheck', [call_case(one) for one, _ in observed], 3)
+    for (one, _), aflags, (sizes_ok, gens_ok, entry_ok) in zip(observed, ares, cres):
+        limits = one['limits']
+        jrec = dict(one, req_timeout=str(one.get('req_timeout')), cpu_count=cpu,
+                    api_repeat={'timeout': timeout, 'n_jobs': n_jobs, 'limits': limits, 'calls': one['call']},
+                    fields=[f for f in one['fields'] if f[3] != ('FGiven' if f[2] else 'FDefault')])
+        ctx.count(group, key=('real-repeat', json.dumps(limits, sort_keys=True), one['call']), nontrivial=one['call'] >= 2,
+                  kind='real repeated run', call=one['call'], outcome=one['outcome'])
+        judge_api(ctx, group, jrec, aflags)
+        if one['outcome'] != 'ok':
+            ctx.violate(group, jrec, 'optimise() call %d on one facade object ended with %s' % (one['call'], one['outcome']))
+        if not sizes_ok:
+            ctx.violate(group, jrec, 'optimise() call %d on one facade object: a generation is larger than the max_pop_size given to the '
+                                     'facade: %s' % (one['call'], one['all_sizes']))
+        if not gens_ok:
+            ctx.violate(group, jrec, 'optimise() call %d on one facade object: more steps than the num_of_generations given to the facade: %s' % (
+                one['call'], one['all_sizes']))
+        if not entry_ok:
+            ctx.violate(group, jrec, 'optimise() call %d on one facade object starts from pop_size / max_pop_size %s, the facade was given %s' % (
+                one['call'], one['entry'], limits))
+        if one['call'] >= 2 and one['entry']['max_depth'] != limits.get('max_depth', 10):
+            ctx.notes.append('call %d on one facade object is handed max_depth=%s (given %s): adapted in place by an earlier run' % (
+                one['call'], one['entry']['max_depth'], limits.get('max_depth', 10)))
+
+
 def replay_api_sequence(ctx, sequence):
     """facades built one after the other in this process; each judged like the cases of unit_api"""
     from joblib import cpu_count
@@ -731,15 +863,18 @@ def replay_api_sequence(ctx, sequence):
     cases, meta, earlier = [], [], []
     for step in sequence:
         kwargs = list(step.get('kwargs', {}).items()) + common_kwargs()
-        rec = observe_api(step.get('timeout', 2), step.get('n_jobs', 1), kwargs)
-        cases.append(api_case(cpu, step.get('timeout', 2), step.get('n_jobs', 1), kwargs, rec))
+        full = observe_api(step.get('timeout', 2), step.get('n_jobs', 1), kwargs, calls=int(step.get('calls', 1)))
         earlier.append(step)
-        meta.append(dict(rec, req_timeout=str(rec.get('req_timeout')), cpu_count=cpu, sequence=list(earlier),
-                         fields=[f for f in rec.get('fields', []) if f[3] != ('FGiven' if f[2] else 'FDefault')]))
+        for rec in full['per_call']:
+            cases.append(api_case(cpu, step.get('timeout', 2), step.get('n_jobs', 1), kwargs, rec))
+            one = dict(rec, req_timeout=str(rec.get('req_timeout')), cpu_count=cpu, sequence=list(earlier),
+                       fields=[f for f in rec.get('fields', []) if f[3] != ('FGiven' if f[2] else 'FDefault')])
+            one.pop('per_call', None)
+            meta.append(one)
     res = ctx.coq_cases('api-sequence', REQ, 'acheck', cases, 6)
     for rec, flags in zip(meta, res):
-        ctx.count('api-sequence', key=json.dumps(rec['sequence'], sort_keys=True), nontrivial=len(rec['sequence']) >= 2,
-                  position=len(rec['sequence']))
+        ctx.count('api-sequence', key=json.dumps([rec['sequence'], rec.get('call', 1)], sort_keys=True),
+                  nontrivial=len(rec['sequence']) >= 2 or rec.get('call', 1) >= 2, position=len(rec['sequence']), call=rec.get('call', 1))
         judge_api(ctx, 'api-sequence', rec, flags)
 
 
@@ -1130,7 +1265,8 @@ def run(ctx):
                 # canary: a used-up budget reported as not reached
                 cases.append('UTimer (Some %s) %s %s (Some %s) false false false' % (q(1), q(0), q(2), c_Z(1)))
                 ctx.canaries += 1
-            res = ctx.coq_cases(name, REQ, 'ucheck', cases, 2)
+            # large shards: the start-up of coqc, not the evaluation, dominates on a loaded machine
+            res = ctx.coq_cases(name, REQ, 'ucheck', cases, 2, shard=1000)
             if name == 'timer':
                 if res[-1] == (False, False):
                     ctx.canaries_caught += 1
@@ -1155,6 +1291,12 @@ def replay(ctx, payload):
     sequence = payload.get('api_sequence') or (case.get('sequence') if isinstance(case, dict) else None)
     if sequence:
         replay_api_sequence(ctx, sequence)
+        return
+    repeat = payload.get('api_repeat') or (case.get('api_repeat') if isinstance(case, dict) else None)
+    if repeat:
+        from joblib import cpu_count
+        real_repeat(ctx, 'api-repeat', int(cpu_count()), repeat.get('timeout', 1), repeat.get('n_jobs', 1), [repeat['limits']],
+                    int(repeat.get('calls', 2)))
         return
     cfg = case.get('cfg') if isinstance(case, dict) else None
     if not cfg:
